@@ -16,7 +16,7 @@ RULE = (
     "the sequence line, swap two lines) of every record; 'paired' mates missing at the end of R1 or R2, a renamed "
     "mate, an odd interleaved file; each with one core and (sampled) 2-3 real worker processes and chunk sizes "
     "placing the faulty record in the first/middle/last chunk; 'sim' runs the faulty input under the schedule-owning "
-    "simulator with drawn schedules; 'proc' repeats a sample as real operating-system processes. Oracle for the "
+    "simulator with drawn schedules; 'proc' repeats a sample as real operating-system processes; 'bigtrunc' truncates gzip files of 1500-6000 records (far beyond any read-ahead buffer) so that the reader meets the truncation after chunks were handed out. Oracle for the "
     "INPUT: independent strict 4-line FASTQ parser + zlib stream check + pair/name rules. Malformed => exit status != "
     "0, an error message, termination (no runnable-task deadlock in the simulator, time bound for real runs). Exit "
     "status 0 => the input is well-formed by the oracle and the output holds every input record. Always: the output "
@@ -202,6 +202,47 @@ def check_trunc(case, ctx):
     if n_mal:
         ctx.nontrivial_case({"records": len(recs), "container": cont, "cores": cores, "malformed_cuts": n_mal,
                              "wellformed_cuts": n_ok})
+
+
+# ----------------------------------------------------------------------------- large compressed inputs
+@st.composite
+def bigtrunc_case(draw):
+    """A gzip input far larger than any read-ahead buffer, so that a truncation is met by the reader
+    long after the format was detected and chunks were handed out."""
+    return {"sub": "bigtrunc", "n": draw(st.sampled_from([1500, 3000, 6000])), "seed": draw(st.integers(0, 10**6)),
+            "cores": draw(st.sampled_from([1, 2, 3, 4])), "multi": draw(st.booleans()),
+            "fracs": draw(st.lists(st.floats(0.03, 0.9999), min_size=5, max_size=5)),
+            "buffer": draw(st.sampled_from([4000, 20000, 100000]))}
+
+
+def check_bigtrunc(case, ctx):
+    import hashlib
+
+    # deterministic pseudo-random (poorly compressible) content derived from the drawn seed
+    recs = []
+    for i in range(case["n"]):
+        h = hashlib.sha256(f"{case['seed']}/{i}".encode()).hexdigest()
+        seq = "".join("ACGT"[int(c, 16) % 4] for c in h) + ("AAGGCC" if i % 3 == 0 else "")
+        recs.append([f"r{i}x", seq, "".join("5?FI"[int(c, 16) % 4] for c in h) + ("IIIIII" if i % 3 == 0 else "")])
+    text = cli.fastq(recs).encode()
+    full_out = fault_free_output(recs)
+    data = cli.compress(text, "gz-multi" if case["multi"] else "gz")
+    n_mal = 0
+    for frac in case["fracs"] + [1.0 - 4.0 / len(data)]:
+        off = max(1, min(len(data) - 1, int(len(data) * frac)))
+        cut = data[:off]
+        okz, plain = gunzip_oracle(cut)
+        ok, info = oracle_records(plain) if okz else (False, plain)
+        args, r = run_cutadapt(cut, "in.fastq.gz", case["cores"], case["buffer"], timeout=60)
+        judge(f"truncation of a {len(data)}-byte gzip file at byte {off}", args, r, ok, None if ok else info,
+              info if ok else None, full_out, ctx)
+        n_mal += not ok
+        if not ok and r.files.get("out.fastq"):
+            ctx.label("records-before-error:some")
+    ctx.evaluations += len(case["fracs"])
+    ctx.label(f"cores:{case['cores']}")
+    if n_mal:
+        ctx.nontrivial_case({"records": case["n"], "cores": case["cores"], "gzip_bytes": len(data), "malformed_cuts": n_mal})
 
 
 # ----------------------------------------------------------------------------- corruption
@@ -430,6 +471,7 @@ SUBS = {
     "paired": Sub(strategy=lambda tier: paired_case(), check=check_paired),
     "sim": Sub(strategy=lambda tier: sim_case(), check=check_sim),
     "proc": Sub(strategy=lambda tier: proc_case(), check=check_proc),
+    "bigtrunc": Sub(strategy=lambda tier: bigtrunc_case(), check=check_bigtrunc),
 }
 
 
@@ -439,9 +481,11 @@ def plan(tier):
                [{"sub": "corrupt", "kind": "hyp", "examples": 8} for _ in range(3)] + \
                [{"sub": "paired", "kind": "hyp", "examples": 25} for _ in range(2)] + \
                [{"sub": "sim", "kind": "hyp", "examples": 300} for _ in range(4)] + \
-               [{"sub": "proc", "kind": "hyp", "examples": 6} for _ in range(2)]
+               [{"sub": "proc", "kind": "hyp", "examples": 6} for _ in range(2)] + \
+               [{"sub": "bigtrunc", "kind": "hyp", "examples": 6} for _ in range(3)]
     return [{"sub": "trunc", "kind": "hyp", "examples": 150} for _ in range(6)] + \
            [{"sub": "corrupt", "kind": "hyp", "examples": 200} for _ in range(3)] + \
            [{"sub": "paired", "kind": "hyp", "examples": 600} for _ in range(2)] + \
            [{"sub": "sim", "kind": "hyp", "examples": 8000} for _ in range(4)] + \
-           [{"sub": "proc", "kind": "hyp", "examples": 120} for _ in range(1)]
+           [{"sub": "proc", "kind": "hyp", "examples": 120} for _ in range(1)] + \
+           [{"sub": "bigtrunc", "kind": "hyp", "examples": 150} for _ in range(3)]
